@@ -5,7 +5,9 @@ import (
 	"bytes"
 	"crypto/ed25519"
 	"encoding/json"
+	"filippo.io/age/armor"
 	"fmt"
+	"io"
 	"math/rand"
 	"os"
 	"path/filepath"
@@ -305,8 +307,14 @@ func checkLib(run *vk.Run, ks *keyset, c *fcase, kind string, rng *rand.Rand) {
 }
 
 // checkCLI evaluates C18 through the age binary (-R for recipients files, -d -i for identities files).
+const encPass = "identity file passphrase"
+
 func checkCLI(run *vk.Run, ks *keyset, c *fcase, kind string, rng *rand.Rand, dir string, ageBin string, idx int) {
-	text, lines := ks.build(c, kind, rng)
+	tkind := kind
+	if kind == "encids" {
+		tkind = "ids" // same text as a plain identities file; only its container differs
+	}
+	text, lines := ks.build(c, tkind, rng)
 	wd := filepath.Join(dir, fmt.Sprintf("c%d", idx))
 	os.MkdirAll(wd, 0o755)
 	defer os.RemoveAll(wd)
@@ -330,7 +338,47 @@ func checkCLI(run *vk.Run, ks *keyset, c *fcase, kind string, rng *rand.Rand, di
 		}
 		w.Write([]byte("hello"))
 		w.Close()
-		p = vk.RunProc(20*time.Second, wd, nil, buf.Bytes(), ageBin, "-d", "-i", kf)
+		if kind == "encids" {
+			// the identities file is itself passphrase-encrypted (age -p): the CLI asks for the passphrase on the
+			// terminal (script(1) provides one), decrypts the file and must then treat its lines exactly as above
+			sr, err := age.NewScryptRecipient(encPass)
+			if err != nil {
+				vk.Infra("%v", err)
+			}
+			sr.SetWorkFactor(10)
+			var eb bytes.Buffer
+			var sink io.Writer = &eb
+			var aw io.WriteCloser
+			if idx%2 == 0 {
+				aw = armor.NewWriter(&eb)
+				sink = aw
+			}
+			ew, err := age.Encrypt(sink, sr)
+			if err != nil {
+				vk.Infra("%v", err)
+			}
+			ew.Write([]byte(text))
+			ew.Close()
+			if aw != nil {
+				aw.Close()
+			}
+			os.WriteFile(kf, eb.Bytes(), 0o600)
+			in := filepath.Join(wd, "in.age")
+			os.WriteFile(in, buf.Bytes(), 0o600)
+			cmdline := fmt.Sprintf("'%s' -d -i '%s' -o '%s' '%s'", ageBin, kf, filepath.Join(wd, "out.txt"), in)
+			p = vk.RunProc(30*time.Second, wd, []string{"TERM=dumb"}, []byte(encPass+"\n"), "script", "-qec", cmdline, "/dev/null")
+			if b, err := os.ReadFile(filepath.Join(wd, "out.txt")); err == nil {
+				p.Stdout = b
+			} else if p.Exit == 0 {
+				p.Stdout = nil
+			}
+			p.Stderr = append(p.Stderr, p.Stdout...)
+			if p.Exit == 0 {
+				p.Stderr = nil
+			}
+		} else {
+			p = vk.RunProc(20*time.Second, wd, nil, buf.Bytes(), ageBin, "-d", "-i", kf)
+		}
 	}
 	run.Eval(1)
 	if p.TimedOut {
@@ -342,7 +390,7 @@ func checkCLI(run *vk.Run, ks *keyset, c *fcase, kind string, rng *rand.Rand, di
 			run.Violation("C18:valid-file-rejected:"+s, fmt.Sprintf("file %q: exit %d: %s", text, p.Exit, stderr), rp)
 			return
 		}
-		if kind == "ids" {
+		if kind == "ids" || kind == "encids" {
 			if string(p.Stdout) != "hello" {
 				run.Violation("C18:wrong-keys:"+s, "decryption with the last key of the file failed", rp)
 			}
@@ -379,7 +427,7 @@ func checkCLI(run *vk.Run, ks *keyset, c *fcase, kind string, rng *rand.Rand, di
 		run.Violation("C18:bad-line-skipped:"+s, fmt.Sprintf("file %q was accepted by the CLI although line %d is not a valid key (0 = no key at all)", text, c.Line), rp)
 		return
 	}
-	if c.Line > 0 {
+	if c.Line > 0 && kind != "encids" {
 		errPart := stderr
 		if i := strings.Index(stderr, "age: error:"); i >= 0 {
 			errPart = stderr[i:] // warnings about skipped lines come first and name their own lines
@@ -390,7 +438,7 @@ func checkCLI(run *vk.Run, ks *keyset, c *fcase, kind string, rng *rand.Rand, di
 			return
 		}
 	}
-	if l := leak(stderr, lines, kind); l != "" {
+	if l := leak(stderr, lines, tkind); l != "" {
 		run.Violation("C18:leak:"+s, fmt.Sprintf("stderr %q reproduces %q from the file", stderr, l), rp)
 	}
 }
@@ -480,6 +528,18 @@ func Run(tier string) {
 		run.Distinct("cli-ids:" + sig(&cases[i]))
 	})
 	run.Add("cli_identity_files", len(cliCases))
+	// the same files, passphrase-encrypted, given to -i (cmd/age's EncryptedIdentity)
+	nEnc := 0
+	for j, i := range cliCases {
+		if j%run.Pick(9, 3) != int(run.Seed)%run.Pick(9, 3) {
+			continue
+		}
+		nEnc++
+		r := rand.New(rand.NewSource(run.Seed*7919 + int64(i)))
+		checkCLI(run, ks, &cases[i], "encids", r, dir, ageBin, 2000000+i)
+		run.Distinct("cli-encids:" + sig(&cases[i]))
+	}
+	run.Add("cli_encrypted_identity_files", nEnc)
 	// CLI recipients files with SSH and skipped lines
 	rc := gen(run, "clircp", cfg(run.Pick(2, 3), set("key1", "sshkey"), set("comment", "empty", "long_comment", "long_comment_key"), set("skip"), set("subst1", "lead_ws", "trail_ws", "other_kind", "two_keys", "ws_only", "key_hash", "wrong_case"), set("lf", "crlf", "none")))
 	var pick []int
